@@ -57,8 +57,9 @@ pub struct GTarget {
     /// evaluation counter (hang detector: a transition may not evaluate the target unboundedly often)
     pub evals: Arc<AtomicU64>,
     pub eval_budget: u64,
-    /// fault: the evaluation with this number (counted over all clones) panics, once
+    /// fault: the evaluations numbered crash_at .. crash_at + crash_len (counted over all clones) panic
     pub crash_at: u64,
+    pub crash_len: u64,
 }
 
 pub const EVAL_BUDGET_MSG: &str = "VERIF-EVAL-BUDGET exceeded: unbounded trajectory";
@@ -69,7 +70,7 @@ impl GTarget {
     }
 
     pub fn new(kind: GKind, d: usize) -> Self {
-        GTarget { kind, d, a: vec![], mu: vec![0.0; d], nu: 3.0, ra: 1.0, rb: 10.0, c: 1.0, offset: 0.0, evals: Arc::new(AtomicU64::new(0)), eval_budget: u64::MAX, crash_at: u64::MAX }
+        GTarget { kind, d, a: vec![], mu: vec![0.0; d], nu: 3.0, ra: 1.0, rb: 10.0, c: 1.0, offset: 0.0, evals: Arc::new(AtomicU64::new(0)), eval_budget: u64::MAX, crash_at: u64::MAX, crash_len: 1 }
     }
 
     /// random SPD precision with condition number up to `cond`
@@ -111,7 +112,7 @@ impl GTarget {
 
     fn bump(&self) {
         let n = self.evals.fetch_add(1, Ordering::Relaxed) + 1;
-        if n == self.crash_at {
+        if n >= self.crash_at && n - self.crash_at < self.crash_len {
             mcmc_sim::sim::count("fault_worker_crash_injected", 1);
             panic!("VERIF-INJECTED target failure at evaluation {n}");
         }
